@@ -36,6 +36,7 @@ DesignsCasesQuick == {D(<<t1, t2>>, <<4, 4>>, 4) : t1 \in {"fuel", "shield", "li
 TriplesQuick == {<<0, 1, 2>>, <<2, 0, 1>>}
 TriplesThorough == {<<0, 1, 2>>, <<2, 0, 1>>, <<1, 1, 0>>, <<2, 1, 0>>}
 TriplesEmit == {<<0, 1, 2>>}
+TriplesOther == {<<2, 0, 1>>}
 NoTriples == {}
 FromBoth == BOOLEAN
 FromRef == {FALSE}
